@@ -2,11 +2,14 @@
 with analytic gradient and Hessian (float64 numpy leaves)."""
 from __future__ import annotations
 
+import dataclasses
+
 import jax
 import jax.numpy as jnp
 import numpy as np
 
 import liesel.goose as gs
+import liesel.goose.pytree  # noqa: F401
 from liesel.goose.epoch import EpochConfig, EpochType
 from vlib.core import fstr
 
@@ -21,6 +24,25 @@ XC = np.c_[np.ones(6), np.linspace(-1, 1, 6)]
 YC = np.array([0.2, 0.1, 0.7, 0.9, 1.4, 1.3])
 
 
+@gs.pytree.register_dataclass_as_pytree
+@dataclasses.dataclass
+class DCBlock:
+    """Model state as a dataclass in the style of liesel's own kernel states: `tau` is not a constructor argument, it
+    gets a start value in __post_init__ and has been changed since."""
+    x: object
+    tau: object = dataclasses.field(init=False)
+
+    def __post_init__(self):
+        self.tau = jnp.asarray(1.0, jnp.float32)
+
+
+TAU_DC = 2.5
+
+
+def _get(st, k):
+    return st[k] if isinstance(st, dict) else getattr(st, k)
+
+
 class Family:
     """log pi, gradient and information over the flat block (sorted keys)."""
 
@@ -30,6 +52,10 @@ class Family:
             self.keys, self.init = ["x"], {"x": jnp.array([0.2], jnp.float32)}
         elif name == "gauss2":
             self.keys, self.init = ["x"], {"x": jnp.array([0.2, -0.4], jnp.float32)}
+        elif name == "gauss2_dc":      # the same target, tempered by a member of a dataclass state that is not an init argument
+            st = DCBlock(jnp.array([0.2, -0.4], jnp.float32))
+            st.tau = jnp.asarray(TAU_DC, jnp.float32)
+            self.keys, self.init = ["x"], st
         elif name == "gauss3":
             self.keys, self.init = ["x"], {"x": jnp.array([0.2, -0.4, 0.1], jnp.float32)}
         elif name in ("poisson", "poisson_userchol"):
@@ -65,6 +91,9 @@ class Family:
         if n in ("gauss2", "gauss2_userchol"):
             r = s["x"] - jnp.asarray(M2, jnp.float32)
             return -0.5 * r @ jnp.asarray(P2, jnp.float32) @ r
+        if n == "gauss2_dc":
+            r = s.x - jnp.asarray(M2, jnp.float32)
+            return -0.5 * r @ jnp.asarray(P2, jnp.float32) @ r / s.tau
         if n == "gauss3":
             r = s["x"] - jnp.asarray(M3, jnp.float32)
             return -0.5 * r @ jnp.asarray(P3, jnp.float32) @ r
@@ -125,6 +154,9 @@ class Family:
         if n == "gauss2":
             r = f - M2
             return -0.5 * r @ P2 @ r, -P2 @ r, P2
+        if n == "gauss2_dc":
+            r = f - M2
+            return -0.5 * r @ P2 @ r / TAU_DC, -P2 @ r / TAU_DC, P2 / TAU_DC
         if n == "gauss2_userchol":
             r = f - M2
             L = np.array([[1.0 + f[0] ** 2, 0.0], [0.5 * f[0], 2.0]])
@@ -158,7 +190,7 @@ def _ms(A):
 
 def run(kernel="iwls", family="gauss2", step=0.7, chains=2, seed=0, n_iter=40):
     fam = Family(family)
-    interface = gs.DictInterface(fam.logp)
+    interface = gs.DataclassInterface(fam.logp) if family.endswith("_dc") else gs.DictInterface(fam.logp)
     if kernel == "rw":
         inner = gs.RWKernel(fam.keys, initial_step_size=step)
     elif kernel == "iwls":
@@ -171,13 +203,13 @@ def run(kernel="iwls", family="gauss2", step=0.7, chains=2, seed=0, n_iter=40):
         inner = gs.MHKernel(fam.keys, prop, initial_step_size=step)
 
     def obs_fn(model, before, after, info, epoch, key):
-        fb = [v for k in sorted(fam.keys) for v in jnp.ravel(jnp.asarray(before[k], jnp.float32))]
-        fa = [v for k in sorted(fam.keys) for v in jnp.ravel(jnp.asarray(after[k], jnp.float32))]
-        cx = [v for k in other for v in jnp.ravel(jnp.asarray(before[k], jnp.float32))]
+        fb = [v for k in sorted(fam.keys) for v in jnp.ravel(jnp.asarray(_get(before, k), jnp.float32))]
+        fa = [v for k in sorted(fam.keys) for v in jnp.ravel(jnp.asarray(_get(after, k), jnp.float32))]
+        cx = [v for k in other for v in jnp.ravel(jnp.asarray(_get(before, k), jnp.float32))]
         return fb + fa + cx
 
     other = getattr(fam, "other", [])
-    d = sum(int(np.prod(np.shape(fam.init[k]))) if np.shape(fam.init[k]) else 1 for k in fam.keys)
+    d = sum(int(np.prod(np.shape(_get(fam.init, k)))) if np.shape(_get(fam.init, k)) else 1 for k in fam.keys)
     w = WrapKernel(inner, n_tun=4, obs_fn=obs_fn, n_obs=2 * d + len(other), cap=2 * n_iter + 16)
     b = gs.EngineBuilder(seed=seed, num_chains=chains)
     b.set_model(interface)
@@ -270,6 +302,9 @@ def jobs(quick=True):
     js.append(dict(kernel="rw", family="concentrated", step=0.7, seed=len(js)))
     js.append(dict(kernel="rw", family="gamma_rw", step=0.9, seed=len(js)))
     js.append(dict(kernel="iwls", family="gauss_big", step=0.7, seed=len(js)))
+    # a dataclass model state with a member that is not a constructor argument
+    js.append(dict(kernel="iwls", family="gauss2_dc", step=0.7, seed=len(js)))
+    js.append(dict(kernel="rw", family="gauss2_dc", step=0.7, seed=len(js)))
     # the block's density depends on a quantity another kernel of the sequence moves between the transitions
     for s in steps:
         js.append(dict(kernel="rw", family="coupled", step=0.5 * s, seed=len(js)))
